@@ -18,7 +18,7 @@ func init() {
 	core.Register(&core.Check{
 		ID:    "C04",
 		Level: "model_checking",
-		Rule: "12 chain contexts ({.,@,$} x {plain,&,~,=}) x 3 call forms (property, literal, variable) x receivers (arrays of n<=4 (thorough 5) tagged elements, each in {value,nil-result,raise,nil element}, with r/comb either props of the elements' prototype or answered by its _missing (n<=3, thorough 4); scalar receivers; " +
+		Rule: "12 chain contexts ({.,@,$} x {plain,&,~,=}) x 3 call forms (property, literal, variable) x receivers (arrays of n<=4 (thorough 5) tagged elements, each in {value,nil-result,raise,nil element}, with r/comb either props of the elements' prototype or answered by its _missing (n<=3, thorough 4), and with the chain written on one line or on a new line (multi-line spelling, n<=2, thorough 3); scalar receivers; " +
 			"int/str/range/obj/map/iterator receivers with 3 callee variants) x chain argument {absent, [], {}, %{}} / initial accumulator {absent, given}; result and call trace compared with a chain model; every pair of list chains ((context, form) x (context, form)) digesting 1-2 results into the same array variable of length 0..8, all three values read afterwards; " +
 			"non-trivial = at least one element whose result is nil or a raise, a nil element, or a chain argument; distinct = distinct source",
 		Assumptions: []string{
@@ -53,6 +53,7 @@ type tcase struct {
 	Add2  string `json:"add2,omitempty"`
 	Form2 string `json:"form2,omitempty"`
 	BaseN int    `json:"base_n,omitempty"`
+	ML    bool   `json:"ml,omitempty"`  // the chain is written on a new line (`recv` newline `|@(arg)f`)
 	Cls   string `json:"cls,omitempty"` // "" = elements are E (r/comb are props of the prototype), "EM" = resolved through the prototype's _missing
 }
 
@@ -217,6 +218,9 @@ func (t tcase) src() string {
 	prop, lit, v := "r", "{|e| e.r}", "^fr"
 	if t.Kind == "reduce" {
 		prop, lit, v = "comb", "{|acc, e| acc.comb(e)}", "^fc"
+	}
+	if t.ML {
+		ch = "\n  |" + ch
 	}
 	switch t.Form {
 	case "property":
@@ -398,6 +402,11 @@ func gen(thorough bool, emit func(tcase)) {
 		t.Cls = "EM"
 		emit(t)
 	})
+	// the same contexts with the chain written on a new line (multi-line chain spelling)
+	genCls("", maxN-2, func(t tcase) {
+		t.ML = true
+		emit(t)
+	})
 	genRest(emit)
 	// two chains with the same array as chain argument: every (context, form) pair x base length 0..8 x 1..2 results
 	for _, a1 := range adds {
@@ -561,6 +570,9 @@ func keyOf(t tcase, want outcome, o panrun.Obs) string {
 	if t.Cls != "" {
 		sub += "/via-_missing"
 	}
+	if t.ML {
+		sub += "/multi-line-spelling"
+	}
 	return "chain" + ch + "/" + t.Form + "/" + class + sub
 }
 
@@ -636,7 +648,7 @@ type groupObs struct {
 var groups = map[string]*groupObs{}
 
 func groupKey(t tcase) string {
-	return fmt.Sprintf("%s|%s|%s|%v|%s|%s|%s|%s", t.Kind, t.Main, t.Add, t.Elems, t.Arg, t.Recv, t.Var, t.Cls)
+	return fmt.Sprintf("%s|%s|%s|%v|%s|%s|%s|%s", t.Kind, t.Main, t.Add, t.Elems, t.Arg, t.Recv, t.Var, t.Cls+fmt.Sprint(t.ML))
 }
 
 func crossForm(c *core.Ctx, t tcase, o panrun.Obs) {
@@ -683,6 +695,9 @@ func nilTag(t tcase) string {
 	}
 	if t.Cls != "" {
 		return "/via-_missing"
+	}
+	if t.ML {
+		return "/multi-line-spelling"
 	}
 	return ""
 }
